@@ -364,7 +364,7 @@ def _prefix_ok(meths, outcome):
             state = 3
         elif state == 3 and m == outcome:
             state = 4
-        elif state in (3, 4) and m == "stopTest":
+        elif state in (2, 3, 4) and m == "stopTest":      # (a block opened with startTest may be closed whatever raised in it)
             state = 5
         else:
             return False
